@@ -500,7 +500,13 @@ class Program:
         self._cg = None
 
     def lib_fns(self):
-        return [f for f in self.fns.values() if f.crate == "lib"]
+        hidden = getattr(self, "hidden", ())
+        return [f for f in self.fns.values() if f.crate == "lib" and f.id not in hidden]
+
+    def inlined(self, no_inline=None, tag=""):
+        """view with fresh private helpers spliced into their callers (see rules/inline.py)"""
+        from . import inline
+        return inline.inlined_view(self, no_inline, tag)
 
     def find(self, suffix, crate=None):
         """functions whose id ends with `suffix` (on a path-segment boundary)."""
@@ -530,7 +536,10 @@ class Program:
                 if f.parent:
                     c.setdefault(f.parent, []).append(f)
             self._children = c
-        return self._children.get(fn.id, [])
+        out = list(self._children.get(fn.id, []))
+        for cid in fn.d.get("inlined_from", []) or []:
+            out.extend(self._children.get(cid, []))
+        return out
 
     def with_children(self, fn):
         out = [fn]
